@@ -10,7 +10,7 @@ from props.common import chunks_for, guarded, canon_cells, PALETTE
 
 PROP = "C19"
 MODULES = ["Curtsies.Properties.C19"]
-RULE = ("exhaustive: all ordered pairs of a 45-value pool (FmtStrs with the same text and different formatting, the same "
+RULE = ("exhaustive: all ordered pairs of a ~70-value pool incl. near misses (whitespace, case, NFC/NFD, one character, one attribute, an extra empty run) (FmtStrs with the same text and different formatting, the same "
         "display and different run boundaries, explicit-False styles, empty runs, no runs; plain strs including the "
         "terminal strings of pool members) for ==, !=, hash, set and dict membership with the operands in either order; "
         "values DERIVED through the API (every slice, int index, split pieces, lines, splices, sums, repeats, padded) from 4 "
@@ -53,9 +53,17 @@ def pool():
         [("ab", {"dark": True})], [("ab", {"underline": True, "blink": True})], [("ab", {"invert": True, "italic": True, "fg": 37, "bg": 40})],
         [("ba", {"fg": 31})], [("abc", {"fg": 31})], [("a\nb", {"bg": 44})], [("a\nb", {})], [("é漢", {"fg": 34})],
         [("a", {"bold": True}), ("b", {"bold": True})], [("ab", {"bold": True}), ("", {"bold": True})],
+        # NEAR MISSES of the values above: == must tell them apart (trailing/leading whitespace, case, normalisation form,
+        # one character, one attribute, an extra empty formatted run)
+        [("ab ", {})], [(" ab", {})], [("ab\n", {})], [("ab\t", {})], [("AB", {})], [("Ab", {})], [("ac", {})],
+        [("é", {})], [("e\u0301", {})], [("é", {"fg": 34})], [("e\u0301", {"fg": 34})],
+        [("ab ", {"fg": 31})], [("ab", {"fg": 31}), (" ", {})], [("ab", {"fg": 31}), ("", {"bold": True})],
+        [("ab", {"fg": 31, "underline": True})], [("AB", {"fg": 31})], [("ab", {"fg": 31}), ("\n", {"fg": 31})],
     ]
     strs = ["", "ab", "a", "ba", "a\nb", "é漢", "\x1b[31mab\x1b[39m", "\x1b[31ma\x1b[39m\x1b[31mb\x1b[39m", "\x1b[1mab\x1b[0m",
-            "\x1b[31m\x1b[39mab", "\x1b[31m\x1b[1mab\x1b[0m\x1b[39m", "\x1b[1m\x1b[31mab\x1b[39m\x1b[0m"]
+            "\x1b[31m\x1b[39mab", "\x1b[31m\x1b[1mab\x1b[0m\x1b[39m", "\x1b[1m\x1b[31mab\x1b[39m\x1b[0m",
+            "ab ", " ab", "ab\n", "AB", "ac", "é", "e\u0301", "\x1b[31mab\x1b[39m ", "\x1b[31mab \x1b[39m", "\x1b[31mAB\x1b[39m",
+            "\x1b[31mab\x1b[39m\n"]
     return [("f", f) for f in fs] + [("s", s) for s in strs]
 
 
@@ -461,8 +469,13 @@ def check(ctx):
             D27_MODEL[rq] = rep
     except Exception as e:  # noqa: BLE001 - without the model nothing is attributed to D27
         ctx.note("D27 expectations unavailable: %r" % (e,))
-    ctx.tie("C19/eq", [c for c in cases if c["op"] in ("eq", "eqother", "eqbytes")], line, impl)
-    # hash(f) being exactly hash(str(f)) and the exact bytes of str(derived) are more than the statement fixes
+    ctx.tie("C19/eq", [c for c in cases if c["op"] == "eq"], line, impl)
+    # the statement is silent about bytes operands and about HOW a non-string comparison answers False
+    # (NotImplemented vs False): representation level
+    ctx.tie("C19/eq-bytes-and-other", [c for c in cases if c["op"] in ("eqother", "eqbytes")], line, impl, level="representation")
+    # hash(f) == hash(str(f)) is REQUIRED by the statement (f == str(f), equal values hash equal) and judged by the
+    # oracle; this tie goes further - it compares with the hash of the MODEL's rendering, i.e. it also pins the exact bytes
+    # of str(f), like the str-of-derived tie below: representation level
     ctx.tie("C19/hash", [c for c in cases if c["op"] == "hash"], line, impl, None, canon_hash_model, level="representation")
     der = [c for c in cases if c["op"] == "derived"]
     ctx.tie("C19/str-of-derived", der, line, impl, level="representation")
